@@ -388,6 +388,30 @@ func c12WrapStream(r *hx.Rand, tier string, n int, emit func(*hx.Line), caseNo f
 			var out []byte
 			var err error
 			p, _ := safeDecode(func() error { out, err = json.Marshal(v); return nil })
+			if m, isM := v.(json.Marshaler); isM && !p && err == nil && len(lastOut)%2 == 0 {
+				// every second time the document is taken from the value's own MarshalJSON and HELD while another value of the same
+				// type is encoded (as a caller collecting json.RawMessage does): the bytes handed out belong to the caller, a later
+				// encoding must not reach them (a result that aliases a reused / pooled buffer shows up as a changed document)
+				var held []byte
+				p, _ = safeDecode(func() error { held, err = m.MarshalJSON(); return nil })
+				if !p && err == nil {
+					want := string(held)
+					decoy := ad.zero()
+					wFill(r, decoy)
+					safeDecode(func() error {
+						if dm, ok := decoy.(json.Marshaler); ok {
+							dm.MarshalJSON()
+						}
+						json.Marshal(decoy)
+						return nil
+					})
+					stats["wenc-held-across-another-encoding"]++
+					if string(held) != want {
+						stats["wenc-held-document-changed"]++
+					}
+					out = held
+				}
+			}
 			switch {
 			case p:
 				l.S("obs", "panic")
